@@ -55,15 +55,32 @@ def _make_jsonable(o, _seen=()):
         return [_make_jsonable(v, _seen) for v in o]
     return o
 
+def _last_resort(o, depth=4):
+    # keep the plain scalar fields (num, level, time, message, ..) of the
+    # outer levels of a wrapper or header, replace everything else
+    if isinstance(o, (str, bool, float, type(None))):
+        return o
+    if isinstance(o, int) and abs(o) < 2**64:
+        return o
+    if isinstance(o, dict) and depth:
+        return dict([(k if isinstance(k, str) else "<key>",
+                      _last_resort(v, depth-1))
+                     for k,v in list(o.items())])
+    return "<value that could not be encoded into JSON>"
+
 def serialize_to_json_utf8(f, obj):
     # py2 json.dumps(ensure_ascii=True) always returns bytes (of ascii)
     # py3 json.dumps always returns str
     try:
         s = json.dumps(obj, cls=ExtendedEncoder)
-    except (TypeError, ValueError):
+    except Exception:
         # one unrepresentable event must not prevent the rest of the file
         # (e.g. an incident report) from being written
-        s = json.dumps(_make_jsonable(obj), cls=ExtendedEncoder)
+        try:
+            s = json.dumps(_make_jsonable(obj), cls=ExtendedEncoder)
+        except Exception:
+            # e.g. an integer too large to print, or nesting too deep
+            s = json.dumps(_last_resort(obj))
     f.write(six.ensure_binary(s))
 
 def serialize_raw_header(f, header):
